@@ -23,7 +23,33 @@ def omptRefs (payload : Bytes) : Option (List Bytes) :=
     else none
   | _ => none
 
+/-- blob referenced by an object value: 0x01 ++ 32-byte hash -/
+def valRef : Rlp.Item → Option Bytes
+  | .bytes (t :: h) => if t = 0x01 ∧ h.length = 32 then some h else none
+  | _ => none
+
+/-- `refs` instance for object-valued tries of the harness (values may refer to a blob in the
+    BytesByHash bucket, requested by the object's `Resolve` after the children of the node):
+    branch: children 0..15 then the branch value; leaf: its value; blob payloads (first byte 0)
+    refer to nothing. -/
+def omptRefsObj (payload : Bytes) : Option (List Bytes) :=
+  match payload with
+  | 0x00 :: _ => some []
+  | _ =>
+    match Rlp.decodeItem payload with
+    | some (.list xs, []) =>
+      if xs.length = 17 then
+        some ((xs.take 16).filterMap linkOf ++ ((xs.drop 16).head?.bind valRef).toList)
+      else if xs.length = 2 then
+        match xs with
+        | [.bytes (h :: _), nxt] =>
+          if h &&& 0x20 = 0 then some ((linkOf nxt).toList) else some ((valRef nxt).toList)
+        | _ => none
+      else none
+    | _ => none
+
 def cfg : Cfg := { H := sha3_256, refs := omptRefs }
+def cfgObj : Cfg := { H := sha3_256, refs := omptRefsObj }
 
 def short (b : Bytes) : String := Hex.encode (b.take 4)
 
@@ -48,28 +74,35 @@ def distinctKeys (st : List (Bytes × Bytes)) : Nat := (st.map (·.1)).eraseDups
 structure DS where
   s : St := {}
   started : Bool := false
+  obj : Bool := false
 
 def step (d : DS) (toks : List String) : DS × String :=
   match toks with
   | ["reset"] => ({}, "ok")
   | ["src", _, _] => if d.started then (d, "bad-op") else (d, "ok")
-  | ["begin", r] =>
-    if d.started then (d, "bad-op") else
-    match Hex.decodeWire r with
-    | some [] => let s' := start {} none; ({ s := s', started := true }, render "ok" s')
-    | some rb => let s' := start {} (some rb); ({ s := s', started := true }, render "ok" s')
-    | none => (d, "bad-op")
-  | ["data", v] =>
-    if !d.started then (d, "bad-op") else
-    match Hex.decodeWire v with
-    | some vb =>
-      let (s', r) := onData cfg d.s vb
-      let tag := match r with
-        | .ok => "ok"
-        | .noRequester => "norequester"
-        | .decodeError => "err"
-      ({ d with s := s' }, if r == .ok then render tag s' ++ " refs=" ++ refsWire (omptRefs vb) else render tag s')
-    | none => (d, "bad-op")
+  | ["blob", _] => if d.started then (d, "bad-op") else (d, "ok")
+  | [b, r] =>
+    if b == "begin" || b == "begin-obj" then
+      if d.started then (d, "bad-op") else
+      match Hex.decodeWire r with
+      | some [] => let s' := start {} none; ({ s := s', started := true, obj := b == "begin-obj" }, render "ok" s')
+      | some rb => let s' := start {} (some rb); ({ s := s', started := true, obj := b == "begin-obj" }, render "ok" s')
+      | none => (d, "bad-op")
+    else if b == "data" || b == "datab" then
+      -- one hasher (sha3) serves both buckets, so the request map is shared: the bucket of a
+      -- delivery does not matter to acceptance
+      if !d.started then (d, "bad-op") else
+      match Hex.decodeWire r with
+      | some vb =>
+        let c := if d.obj then cfgObj else cfg
+        let (s', res) := onData c d.s vb
+        let tag := match res with
+          | .ok => "ok"
+          | .noRequester => "norequester"
+          | .decodeError => "err"
+        ({ d with s := s' }, if res == .ok then render tag s' ++ " refs=" ++ refsWire (c.refs vb) else render tag s')
+      | none => (d, "bad-op")
+    else (d, "bad-op")
   | ["finish"] =>
     if !d.started then (d, "bad-op") else
     if d.s.reqs.isEmpty then (d, s!"complete {distinctKeys d.s.store}")
